@@ -118,6 +118,7 @@ type Ops struct {
 	byKey        map[planKey]*go9p.SrvReq  // the last request seen for (conn, tag)
 	flushGates   map[planKey]chan struct{} // Flush(conn, tag) blocks until the channel is closed
 	closedGates  map[int]chan struct{}     // ConnClosed(conn id) blocks until the channel is closed
+	cbGates      map[string]chan struct{}  // one-shot gates of the other callbacks, by name
 	destroyGates map[int64]chan struct{}   // FidDestroy of the fid object with that token blocks until the channel is closed
 	Dotu         bool
 }
@@ -134,6 +135,28 @@ func (o *Ops) SetDestroyGate(tok int64, gate chan struct{}) {
 	}
 	o.destroyGates[tok] = gate
 	o.mu.Unlock()
+}
+
+// SetCallbackGate makes the next call of the named callback (AuthInit, AuthCheck, AuthRead, AuthWrite, AuthDestroy,
+// ConnOpened, SrvReqProcess, SrvReqRespond) block until gate is closed; the call logs a "blocked" event first.
+func (o *Ops) SetCallbackGate(name string, gate chan struct{}) {
+	o.mu.Lock()
+	if o.cbGates == nil {
+		o.cbGates = map[string]chan struct{}{}
+	}
+	o.cbGates[name] = gate
+	o.mu.Unlock()
+}
+
+func (o *Ops) cbGate(name string, conn int, tag uint16) {
+	o.mu.Lock()
+	g := o.cbGates[name]
+	delete(o.cbGates, name)
+	o.mu.Unlock()
+	if g != nil {
+		o.Log.Add(Event{Kind: "blocked", Conn: conn, Tag: tag, Op: name})
+		<-g
+	}
 }
 
 // SetFlushGate makes the Flush callback for (conn, tag) block until gate is closed (a slow FlushOp).
@@ -535,6 +558,7 @@ func (o *Ops) Wstat(req *go9p.SrvReq) {
 func (o *Ops) ConnOpened(c *go9p.Conn) {
 	id := o.ConnID(c)
 	o.Log.Add(Event{Kind: "connopen", Conn: id})
+	o.cbGate("ConnOpened", id, 0)
 }
 
 func (o *Ops) ConnClosed(c *go9p.Conn) {
@@ -673,6 +697,7 @@ func (o *Ops) authInit(afid *go9p.SrvFid, aname string) (*go9p.Qid, error) {
 	if p.Gate != nil {
 		<-p.Gate
 	}
+	o.cbGate("AuthInit", connOf(o, afid), 0)
 	if p.Err != "" {
 		return nil, &go9p.Error{Err: p.Err, Errornum: p.Errnum}
 	}
@@ -682,6 +707,7 @@ func (o *Ops) authInit(afid *go9p.SrvFid, aname string) (*go9p.Qid, error) {
 
 func (o *Ops) authDestroy(afid *go9p.SrvFid) {
 	o.Log.Add(Event{Kind: "op", Conn: connOf(o, afid), Op: "AuthDestroy", Afid: o.tok(afid), User: uid(afid)})
+	o.cbGate("AuthDestroy", connOf(o, afid), 0)
 }
 
 func (o *Ops) authCheck(fid, afid *go9p.SrvFid, aname string) error {
@@ -691,6 +717,7 @@ func (o *Ops) authCheck(fid, afid *go9p.SrvFid, aname string) error {
 		at = o.tok(afid)
 	}
 	o.Log.Add(Event{Kind: "op", Conn: connOf(o, fid), Op: "AuthCheck", Fid: o.tok(fid), Afid: at, User: uid(fid), Args: fmt.Sprintf("aname=%q", aname), Info: p.AuthReject})
+	o.cbGate("AuthCheck", connOf(o, fid), 0)
 	if p.AuthReject != "" {
 		return &go9p.Error{Err: p.AuthReject, Errornum: go9p.EPERM}
 	}
@@ -700,6 +727,7 @@ func (o *Ops) authCheck(fid, afid *go9p.SrvFid, aname string) error {
 func (o *Ops) authRead(afid *go9p.SrvFid, offset uint64, data []byte) (int, error) {
 	t := o.tok(afid)
 	o.Log.Add(Event{Kind: "op", Conn: connOf(o, afid), Op: "AuthRead", Afid: t, User: uid(afid), Args: fmt.Sprintf("offset=%d count=%d", offset, len(data))})
+	o.cbGate("AuthRead", connOf(o, afid), 0)
 	copy(data, Pattern(0xA07, t, offset, len(data)))
 	return len(data), nil
 }
@@ -707,6 +735,7 @@ func (o *Ops) authRead(afid *go9p.SrvFid, offset uint64, data []byte) (int, erro
 func (o *Ops) authWrite(afid *go9p.SrvFid, offset uint64, data []byte) (int, error) {
 	t := o.tok(afid)
 	o.Log.Add(Event{Kind: "op", Conn: connOf(o, afid), Op: "AuthWrite", Afid: t, User: uid(afid), Args: fmt.Sprintf("offset=%d count=%d data=%s", offset, len(data), hash(data))})
+	o.cbGate("AuthWrite", connOf(o, afid), 0)
 	return len(data), nil
 }
 
@@ -715,11 +744,13 @@ func (o *Ops) authWrite(afid *go9p.SrvFid, offset uint64, data []byte) (int, err
 
 func (o *Ops) srvReqProcess(req *go9p.SrvReq) {
 	o.Log.Add(Event{Kind: "procop", Conn: o.ConnID(req.Conn), Tag: req.Tc.Tag, Op: "SrvReqProcess"})
+	o.cbGate("SrvReqProcess", o.ConnID(req.Conn), req.Tc.Tag)
 	req.Process()
 }
 
 func (o *Ops) srvReqRespond(req *go9p.SrvReq) {
 	o.Log.Add(Event{Kind: "procop", Conn: o.ConnID(req.Conn), Tag: req.Tc.Tag, Op: "SrvReqRespond"})
+	o.cbGate("SrvReqRespond", o.ConnID(req.Conn), req.Tc.Tag)
 	req.PostProcess()
 }
 
